@@ -145,9 +145,9 @@ LEVELS = {
  'C13': {
   'text': 'C13_remove_validator: a successful RemoveValidator is by the owner, removes the address, never empties the registry, and (when the hub holds a movable delegation there) emits RedelegateProxy with a plan that sums to exactly the whole delegation (C12), targets only still-registered validators in positive amounts, followed by an index update; '
           'C13_hub_proxy_forwards: the hub accepts the proxy only from the registry and forwards it one-to-one; C13_redelegate_moves_exactly / C13_nothing_left: each Redelegate moves exactly its amount between two validators, total delegated unchanged, and a plan summing to the delegation leaves nothing on the removed validator; '
-          'later bonds delegate only to validators the registry returns (C02_bond_delegated_in_full). The rewards re-bonded in the same transaction raise delegations and books equally (C02_bond_keeps_gap).',
-  'note': 'Trusted: Lean kernel; registry/hub/chain models; A-CHAIN-3 (redelegation moves token amounts; the can_redelegate flag). The composition over Sys.run of the whole removal transaction (registry -> hub proxy -> staking -> index update) is exercised end to end by the harness, not stated as one theorem.',
-  'technique': 'Lean 4 step theorems composed through C12; end-to-end removal transactions on the implementation',
+          'later bonds delegate only to validators the registry returns (C02_bond_delegated_in_full). The rewards re-bonded in the same transaction raise delegations and books equally (C02_bond_keeps_gap). C13_end_to_end (the whole transaction through the real message executor): if a RemoveValidator transaction succeeds - registry handler, hub proxy, every Redelegate, and the index update the registry triggers with everything it causes (reward withdrawal, swap, dispatch, re-bonding) - then the sender was the owner, the validator is unregistered at the end and, when the chain allowed the redelegation, the hub has no stake left on it. Queue invariant RemInv: the validator is unregistered, its stake is at most what pending messages will move away, and no pending message could delegate to it or register it again (hubExec_steer, regExec_steer, PlainMsgs: no other contract emits steering messages).',
+  'note': 'Trusted: Lean kernel; the six contract models, the chain model and the executor Sys.run; A-CHAIN-3 (redelegation moves token amounts; the can_redelegate flag).',
+  'technique': 'Lean 4 end-to-end theorem over the whole removal transaction (queue invariant through the message executor) on top of C12; end-to-end removal transactions on the implementation',
  },
  'C19': {
   'text': 'C19_hub_update_global (withdraw messages for every delegation, then swap with the booked totals, then dispatch; only last_index_modification changes in the hub), C19_withdraw_reward_pays_all (everything pending on a validator goes to the withdraw address, nothing else moves), '
